@@ -198,6 +198,9 @@ func (s *icmpDriver) handleProbeLayers(parser *packets.FrameParser) (*common.Pro
 				IsDest: false,
 			}, nil
 		case layers.ICMPv4TypeEchoReply:
+			if ipPair.SrcAddr.Compare(s.params.Target) != 0 {
+				return nil, common.ErrPacketDidNotMatchTraceroute
+			}
 			if parser.ICMP4.Id != s.echoID {
 				return nil, &common.BadPacketError{Err: fmt.Errorf("mismatched echo ID")}
 			}
@@ -253,6 +256,9 @@ func (s *icmpDriver) handleProbeLayers(parser *packets.FrameParser) (*common.Pro
 				IsDest: false,
 			}, nil
 		case layers.ICMPv6TypeEchoReply:
+			if ipPair.SrcAddr.Compare(s.params.Target) != 0 {
+				return nil, common.ErrPacketDidNotMatchTraceroute
+			}
 			payload := parser.ICMP6.Payload
 			if len(payload) < 4 {
 				return nil, errPacketDidNotMatchTraceroute
